@@ -548,7 +548,9 @@ class DMSAngle(object):
         :type positive: bool
         """
         # evaluate sign
-        if positive is False or str(degree)[0] == '-':
+        # (a flag that is false without being the object False - numpy.False_
+        # from an array comparison, 0 - also means negative)
+        if (positive is not None and not positive) or str(degree)[0] == '-':
             self.positive = False
         else:
             self.positive = True
@@ -755,7 +757,9 @@ class DDMAngle(object):
         """
 
         # evaluate sign
-        if positive is False or str(degree)[0] == '-':
+        # (a flag that is false without being the object False - numpy.False_
+        # from an array comparison, 0 - also means negative)
+        if (positive is not None and not positive) or str(degree)[0] == '-':
             self.positive = False
         else:
             self.positive = True
